@@ -33,3 +33,26 @@ package scanner
 //@   requires s != nil && s.dataSize == len(s.data) && 1 <= s.index && s.index <= s.dataSize
 //@   nopanic
 //@   modifies s.finds, s.finds[*], s.step
+
+// C06/C14: which pairs close ON their own last byte and which on the byte before
+//@ func isNonScalarPair(pairType, lexType)
+//@   props C06 C14
+//@   pure
+//@   ensures result == ((pairType == lexeme.ObjectBegin && lexType == lexeme.ObjectEnd) || (pairType == lexeme.ArrayBegin && lexType == lexeme.ArrayEnd) || (pairType == lexeme.MultiLineAnnotationBegin && lexType == lexeme.MultiLineAnnotationEnd))
+//@ func isScalarPair(pairType, lexType)
+//@   props C06 C14
+//@   pure
+//@   ensures result == ((pairType == lexeme.LiteralBegin && lexType == lexeme.LiteralEnd) || (pairType == lexeme.ArrayItemBegin && lexType == lexeme.ArrayItemEnd)
+//@            || (pairType == lexeme.ObjectKeyBegin && lexType == lexeme.ObjectKeyEnd) || (pairType == lexeme.ObjectValueBegin && lexType == lexeme.ObjectValueEnd)
+//@            || (pairType == lexeme.InlineAnnotationTextBegin && lexType == lexeme.InlineAnnotationTextEnd) || (pairType == lexeme.MultiLineAnnotationTextBegin && lexType == lexeme.MultiLineAnnotationTextEnd)
+//@            || (pairType == lexeme.InlineAnnotationBegin && lexType == lexeme.InlineAnnotationEnd) || (pairType == lexeme.KeyShortcutBegin && lexType == lexeme.KeyShortcutEnd)
+//@            || (pairType == lexeme.TypesShortcutBegin && lexType == lexeme.TypesShortcutEnd) || (pairType == lexeme.MixedValueBegin && lexType == lexeme.MixedValueEnd))
+
+// C05/C13: a schema string accepts exactly the JSON string escapes
+//@ func stateInStringEsc(s, c)
+//@   props C05 C13
+//@   requires s != nil && s.returnToStep != nil && 1 <= s.index && s.index <= len(s.data)
+//@   maypanic
+//@   modifies s.step, s.returnToStep.vals, s.returnToStep.vals[*]
+//@   ensures panics <==> !(isSimpleEscape(c) || c == 'u')
+//@   ensures panics ==> typeis(pv, errors.DocumentError)
